@@ -390,7 +390,7 @@ class TypedNode(Node):
         return self.add_child(
             child,
             kind=kind,
-            before=self.first_child(),
+            before=True,
             deep=deep,
             data_id=data_id,
             node_id=node_id,
@@ -409,7 +409,12 @@ class TypedNode(Node):
         This method calls :meth:`add_child` on ``self.parent``.
         """
         return self._parent.add_child(
-            child, before=self, deep=deep, data_id=data_id, node_id=node_id
+            child,
+            kind=self.kind,
+            before=self,
+            deep=deep,
+            data_id=data_id,
+            node_id=node_id,
         )
 
     def append_sibling(
@@ -424,9 +429,16 @@ class TypedNode(Node):
 
         This method calls :meth:`add_child` on ``self.parent``.
         """
-        next_node = self.next_sibling
+        siblings = self._parent._children
+        idx = _index_of(siblings, self) + 1
+        next_node = siblings[idx] if idx < len(siblings) else None
         return self._parent.add_child(
-            child, before=next_node, deep=deep, data_id=data_id, node_id=node_id
+            child,
+            kind=self.kind,
+            before=next_node,
+            deep=deep,
+            data_id=data_id,
+            node_id=node_id,
         )
 
     def move_to(
